@@ -12,6 +12,8 @@ import (
 	leanhelix "github.com/orbs-network/lean-helix-go"
 	"github.com/orbs-network/lean-helix-go/services/interfaces"
 	"github.com/orbs-network/lean-helix-go/spec/types/go/primitives"
+	"github.com/orbs-network/lean-helix-go/spec/types/go/protocol"
+	"github.com/orbs-network/lean-helix-go/state"
 )
 
 func init() { suites["loops"] = suiteLoops }
@@ -115,6 +117,7 @@ func suiteLoops(c *Ctx) {
 	}
 	stressLoops(c)
 	shutdownScenarios(c)
+	twoTriggerScenario(c)
 }
 
 // stressLoops: many concurrent API callers against one running MainLoop with the REAL timer-based
@@ -298,6 +301,135 @@ func libraryGoroutines() (int, string) {
 	return cnt, strings.Join(which, ",")
 }
 
+// twoTriggerScenario (C19): two election timers expire while the worker is busy with one piece of work.
+// The leader of height 1 is inside the consumer's commit callback when the (now pointless) timer of (1,0)
+// fires; in the same piece of work it starts height 2, arms (2,0) and, being leader again, blocks in
+// RequestNewBlockProposal.  Then the timer of (2,0) fires.  The worker's one-slot election inbox still holds
+// the trigger of (1,0): the armed, un-superseded trigger of (2,0) must nevertheless be acted upon.
+func twoTriggerScenario(c *Ctx) {
+	rounds := 2
+	if c.Thorough() {
+		rounds = 10
+	}
+	for it := 0; it < rounds; it++ {
+		w := NewWorld(100)
+		var members []interfaces.CommitteeMember
+		for i := 0; i < 4; i++ {
+			members = append(members, interfaces.CommitteeMember{Id: memberId(i), Weight: 1})
+		}
+		w.Committee = func(h uint64) []interfaces.CommitteeMember { return members }
+		cfg, bu, comm, el := simpleConfig(w, memberId(0))
+		var gateCalls int32
+		inSpi2 := make(chan struct{}, 4)
+		release := make(chan struct{})
+		bu.Gate = func(ctx context.Context, k string) {
+			if atomic.AddInt32(&gateCalls, 1) == 1 {
+				return // the proposal of height 1 is produced at once
+			}
+			select {
+			case inSpi2 <- struct{}{}:
+			default:
+			}
+			select {
+			case <-ctx.Done():
+				time.Sleep(30 * time.Millisecond)
+			case <-release:
+			}
+		}
+		inCommit := make(chan struct{}, 4)
+		releaseCommit := make(chan struct{})
+		ml := leanhelix.NewLeanHelix(cfg, func(ctx context.Context, block interfaces.Block, blockProof []byte) error {
+			select {
+			case inCommit <- struct{}{}:
+			default:
+			}
+			select {
+			case <-releaseCommit:
+			case <-time.After(3 * time.Second):
+			}
+			return nil
+		}, nil)
+		ctx, cancel := context.WithCancel(context.Background())
+		ml.Run(ctx)
+		net := &Net{w: w}
+		a := &Adversary{net: net, km: &FakeKeyManager{w: w, me: memberId(1)}}
+		send := func(raw *interfaces.ConsensusRawMessage) {
+			tctx, tc := context.WithTimeout(ctx, time.Second)
+			ml.HandleConsensusMessage(tctx, raw)
+			tc()
+		}
+		tctx, tc := context.WithTimeout(ctx, time.Second)
+		ml.UpdateState(tctx, nil, nil)
+		tc()
+		// the leader's own proposal of (1,0)
+		var hash []byte
+		for k := 0; k < 400 && hash == nil; k++ {
+			time.Sleep(5 * time.Millisecond)
+			comm.mu.Lock()
+			for _, s := range comm.Outbox {
+				if pp, ok := interfaces.ToConsensusMessage(s.Raw).(*interfaces.PreprepareMessage); ok {
+					hash = pp.Content().SignedHeader().BlockHash()
+				}
+			}
+			comm.mu.Unlock()
+		}
+		reached := false
+		if hash != nil {
+			for _, m := range []int{1, 2} {
+				send(a.mkP(memberId(m), protocol.LEAN_HELIX_PREPARE, 100, 1, 0, hash))
+			}
+			for _, m := range []int{1, 2} {
+				send(a.mkC(memberId(m), protocol.LEAN_HELIX_COMMIT, 100, 1, 0, hash))
+			}
+			select {
+			case <-inCommit:
+				reached = true
+			case <-time.After(2 * time.Second):
+			}
+		}
+		if !reached {
+			c.Class("two-triggers/not-reached")
+			close(releaseCommit)
+			close(release)
+			cancel()
+			continue
+		}
+		fire := func(h, v uint64) {
+			trig := &interfaces.ElectionTrigger{Hv: state.NewHeightView(primitives.BlockHeight(h), primitives.View(v)), MoveToNextLeader: func() { el.Fire(h, v) }}
+			select {
+			case el.ch <- trig:
+			case <-time.After(time.Second):
+			}
+		}
+		fire(1, 0) // the timer of (1,0) expires while the commit callback of height 1 is running
+		time.Sleep(30 * time.Millisecond)
+		close(releaseCommit)
+		select {
+		case <-inSpi2: // height 2 started, (2,0) armed, the leader waits for its consumer
+		case <-time.After(2 * time.Second):
+			c.Class("two-triggers/height-2-not-reached")
+		}
+		fire(2, 0)
+		ok := false
+		var hv *state.HeightView
+		for k := 0; k < 300 && !ok; k++ {
+			time.Sleep(5 * time.Millisecond)
+			hv = ml.State().HeightView()
+			ok = uint64(hv.Height()) == 2 && uint64(hv.View()) >= 1
+		}
+		if !ok {
+			c.Violation("C19", "armed-trigger-not-acted-upon", fmt.Sprintf("the election timer armed for (2,0) expired and was read by the main loop while the worker's election inbox still held the trigger of (1,0): 1.5 s later the node is at (%d,%d), it never moved to view 1", uint64(hv.Height()), uint64(hv.View())), "two-triggers")
+		}
+		c.Class("two-triggers")
+		c.Nontrivial(fmt.Sprintf("two-triggers/%v", ok))
+		close(release)
+		cancel()
+		wctx, wc := context.WithTimeout(context.Background(), 2*time.Second)
+		ml.WaitUntilShutdown(wctx)
+		wc()
+	}
+}
+
 // shutdownScenarios (C16, C14): cancellation and sync while the worker is inside an SPI call that
 // is slow to return, or polling a failing committee contract.  Monitors only.
 func shutdownScenarios(c *Ctx) {
@@ -307,7 +439,7 @@ func shutdownScenarios(c *Ctx) {
 		rounds = 20
 	}
 	for it := 0; it < rounds; it++ {
-		for _, kind := range []string{"request", "validate", "membership", "membership-then-sync", "flood-then-sync"} {
+		for _, kind := range []string{"request", "validate", "membership", "membership-then-sync", "flood-then-sync", "flood-then-election", "two-syncs"} {
 			w := NewWorld(100)
 			var members []interfaces.CommitteeMember
 			for i := 0; i < 4; i++ {
@@ -318,7 +450,7 @@ func shutdownScenarios(c *Ctx) {
 			if kind == "validate" {
 				me = 1
 			}
-			cfg, bu, _, _ := simpleConfig(w, memberId(me))
+			cfg, bu, _, el := simpleConfig(w, memberId(me))
 			linger := time.Duration(20+r.Intn(150)) * time.Millisecond
 			inSpi := make(chan struct{}, 16)
 			release := make(chan struct{})
@@ -405,6 +537,60 @@ func shutdownScenarios(c *Ctx) {
 					if !ok {
 						c.Violation("C14", "sync-not-effective", fmt.Sprintf("UpdateState(block 3) accepted after a message burst; two seconds later the node decides height %d", uint64(ml.State().Height())), "shutdown-scenario "+kind)
 					}
+				}
+			} else if kind == "two-syncs" {
+				// C14: two node syncs of increasing height arrive back to back while the worker is still inside an SPI call
+				// (it has not read the first when the second arrives): the newest must take effect
+				select {
+				case <-inSpi:
+				case <-time.After(2 * time.Second):
+				}
+				var errs []error
+				for _, hh := range []uint64{2, 4} {
+					tctx, tc := context.WithTimeout(ctx, time.Second)
+					errs = append(errs, ml.UpdateState(tctx, &FakeBlock{H: hh, Id: 1}, net.syncProof(hh)))
+					tc()
+				}
+				if errs[0] != nil || errs[1] != nil {
+					c.Violation("C14", "updatestate-blocked", fmt.Sprintf("UpdateState(2), UpdateState(4) while the worker was inside RequestNewBlockProposal: %v %v", errs[0], errs[1]), "shutdown-scenario "+kind)
+				} else {
+					ok := false
+					for k := 0; k < 400 && !ok; k++ {
+						time.Sleep(5 * time.Millisecond)
+						ok = uint64(ml.State().Height()) == 5
+					}
+					if !ok {
+						c.Violation("C14", "sync-not-effective", fmt.Sprintf("UpdateState(block 2) and UpdateState(block 4) were accepted back to back while the worker was busy; two seconds later the node decides height %d, not 5", uint64(ml.State().Height())), "shutdown-scenario "+kind)
+					}
+				}
+			} else if kind == "flood-then-election" {
+				// C15: the worker sits in RequestNewBlockProposal of (1,0) while more messages arrive than its inbox
+				// holds; then the election timer of (1,0) fires: the context of the blocked call must be cancelled
+				select {
+				case <-inSpi:
+				case <-time.After(2 * time.Second):
+				}
+				for k := 0; k < 1300; k++ {
+					tctx, tc := context.WithTimeout(ctx, 20*time.Millisecond)
+					ml.HandleConsensusMessage(tctx, mkBareRaw(1+k%2, 100, 1, 0, memberId(1+k%3)))
+					blocked := tctx.Err() != nil
+					tc()
+					if blocked {
+						break
+					}
+				}
+				trig := &interfaces.ElectionTrigger{Hv: state.NewHeightView(1, 0), MoveToNextLeader: func() { el.Fire(1, 0) }}
+				select {
+				case el.ch <- trig:
+				case <-time.After(time.Second):
+				}
+				ok := false
+				for k := 0; k < 200 && !ok; k++ {
+					time.Sleep(5 * time.Millisecond)
+					ok = atomic.LoadInt32(&sawDone) == 1
+				}
+				if !ok {
+					c.Violation("C15", "spi-context-not-cancelled-on-election", "the election timer of (1,0) fired after a burst of 1300 messages while the worker was inside RequestNewBlockProposal of (1,0): one second later the call's context is still live", "shutdown-scenario "+kind)
 				}
 			} else if strings.HasPrefix(kind, "membership") {
 				time.Sleep(time.Duration(5+r.Intn(30)) * time.Millisecond)
